@@ -174,3 +174,47 @@ Definition outcome_code (o : outcome) : list Z :=
   | Partial a b t body => [206; a; b; t; zlen body; match body with x :: _ => Z.of_N x | [] => -1 end;
                            Z.of_N (last body 0%N)]
   end.
+
+(* ====================================================================================
+   Conditional requests: the ETag / If-None-Match block of AssetsHandler (runs only when
+   hasRange = "", i.e. no Range header).  hash stands for fmt.Sprintf("%x", sha256.Sum256(data)). *)
+Fixpoint split_char (sep : N) (s : str) : list str :=
+  match s with
+  | [] => [[]]
+  | c :: r => if (c =? sep)%N then [] :: split_char sep r
+              else match split_char sep r with f :: fs => (c :: f) :: fs | [] => [[c]] end
+  end.
+
+(* strings.TrimSpace on ASCII text: space, \t \n \v \f \r *)
+Definition is_space (c : N) : bool := ((c =? 32) || ((9 <=? c) && (c <=? 13)))%N.
+Fixpoint ltrim (s : str) : str :=
+  match s with c :: r => if is_space c then ltrim r else s | [] => [] end.
+Definition trim_space (s : str) : str := rev (ltrim (rev (ltrim s))).
+
+Definition etag (hash : list N -> str) (data : list N) : str := 34%N :: hash data ++ [34%N].
+
+(* match := r.Header.Get("If-None-Match"); match != "" && some TrimSpace(piece of Split(match, ",")) == etag *)
+Definition inm_match (tag : str) (inm : option str) : bool :=
+  match inm with
+  | None => false
+  | Some [] => false
+  | Some m => existsb (fun t => str_eqb (trim_space t) tag) (split_char 44 m)
+  end.
+
+Inductive outcome2 :=
+| NotModified (tag : str)                    (* 304, ETag header, no body *)
+| FullTag (tag : str) (body : list N)        (* 200, ETag header *)
+| Plain (o : outcome).                       (* a Range header was present: no validator processing *)
+
+Definition handle_cond (hash : list N -> str) (fx cached : bool) (h inm : option str) (file : list N) : outcome2 :=
+  match parse_range fx h with
+  | PNone => let t := etag hash file in if inm_match t inm then NotModified t else FullTag t file
+  | p => Plain (serve fx cached p file)
+  end.
+
+Definition outcome2_code (o : outcome2) : list Z :=
+  match o with
+  | NotModified _ => [304]
+  | FullTag _ b => [200; zlen b]
+  | Plain o => outcome_code o
+  end.
